@@ -15,6 +15,7 @@ package throttler
 //     model must accept; reads before the deadline must agree exactly.
 
 import (
+	"hash/fnv"
 	"context"
 	"fmt"
 	"strings"
@@ -123,7 +124,7 @@ func c36SeqA(rep *vfReport, ds []time.Duration, rate int, idle time.Duration, op
 			rep.Fail("getdelay-not-table-entry", fmt.Sprintf("table %v level %d: GetDelay %v", ds, l, g), replay())
 		}
 	}
-	rep.Case(strings.Join(ops, ";"), sawPos && sawClamp)
+	rep.Case(c36Key(ops), sawPos && sawClamp)
 	return
 }
 
@@ -139,7 +140,7 @@ func TestVerifC36(t *testing.T) {
 	var allOps, allImpl [][]string
 
 	// ---- A: untimed sequences ------------------------------------------------
-	nA := vfScale(1500, 60000)
+	nA := vfScale(1500, 250000)
 	kinds := []string{"signal", "signal", "signal", "release", "release", "reset", "level", "getdelay"}
 	for i := 0; i < nA; i++ {
 		ds := c36Table(r)
@@ -163,6 +164,10 @@ func TestVerifC36(t *testing.T) {
 		ops, out := c36SeqA(rep, ds, rate, idle, seq)
 		allOps = append(allOps, ops)
 		allImpl = append(allImpl, out)
+		if len(allOps) >= 4000 { // bound memory in the thorough tier: compare in chunks
+			rep.vfCompareSegments("throttler", allOps, allImpl)
+			allOps, allImpl = nil, nil
+		}
 		rep.Count(fmt.Sprintf("A:table-len=%d", len(ds)))
 		if rate < 1 {
 			rep.Count("A:rate<1")
@@ -184,7 +189,7 @@ func TestVerifC36(t *testing.T) {
 			casesB = append(casesB, c36DelayCase{lvl, k})
 		}
 	}
-	reps := vfScale(2, 20)
+	reps := vfScale(2, 60)
 	var mu sync.Mutex
 	var wg sync.WaitGroup
 	tol := 1500 * time.Millisecond
@@ -271,7 +276,7 @@ func TestVerifC36(t *testing.T) {
 	}
 
 	// ---- C: idle timer ----------------------------------------------------------
-	nC := vfScale(12, 200)
+	nC := vfScale(12, 1500)
 	par := 6
 	sem := make(chan struct{}, par)
 	for i := 0; i < nC; i++ {
@@ -394,4 +399,14 @@ func TestVerifC36(t *testing.T) {
 	wg.Wait()
 
 	rep.vfCompareSegments("throttler", allOps, allImpl)
+}
+
+// c36Key identifies an op sequence by a 64-bit hash (keeps the distinct-case set small).
+func c36Key(ops []string) string {
+	h := fnv.New64a()
+	for _, o := range ops {
+		h.Write([]byte(o))
+		h.Write([]byte{'\n'})
+	}
+	return fmt.Sprintf("%016x", h.Sum64())
 }
